@@ -168,6 +168,24 @@ impl Table {
         Self(TranspositionTableAccess::with_tables(tables))
     }
 
+    /// Sub-tables sized from a byte budget, through the same sizing path as the shipped
+    /// 1 GiB table (which the simulator otherwise never builds).
+    pub fn with_memory(tables: usize, bytes_per_table: usize) -> Self {
+        let tables = (0..tables)
+            .map(|_| TranspositionTable::with_memory(bytes_per_table))
+            .collect();
+
+        Self(TranspositionTableAccess::with_tables(tables))
+    }
+
+    pub fn bucket_bytes() -> usize {
+        std::mem::size_of::<TranspositionBucket>()
+    }
+
+    pub fn saturation(&self) -> f32 {
+        self.0.saturation()
+    }
+
     pub fn insert(&self, key: Hash, entry: EntryView) {
         self.0.insert(key, entry.to_entry())
     }
